@@ -3,15 +3,17 @@
     crates/ide/src/index/scope.rs, index/context.rs and index.rs.  This obligation covers exactly the functions listed in its
     statement:
     - index/scope.rs: 16 of its 17 fns (find_variable_in_current_scope is rendered but has no counterpart in the model);
-    - index/context.rs: 6 of 9 (IndexCtx::new / finish are not rendered, resolve_id_in_current_scope has no counterpart);
-    - index.rs: 39 of 40: utils::identifier, index_name_value, resolve_class_ref_as_class / _multiclass,
-      check_template_args (equal to emitting the model's diagnostics list computed in the entry state), and the impls for
+    - index/context.rs: 8 of 9 (resolve_id_in_current_scope has no counterpart); IndexCtx::new on root file 0 is st0,
+      IndexCtx::finish is the symbol-map components and the diagnostics of the state;
+    - index.rs: all 40: the salsa query `index` (= IndexCtx::finish of index_ws w, for a workspace with a root file),
+      utils::identifier, index_name_value, resolve_class_ref_as_class / _multiclass, check_template_args (equal to
+      emitting the model's diagnostics list computed in the entry state), and the impls for
       SourceFile, StatementList, Statement, Include, Assert, Class, Def, Defm, Defset, Defvar, Dump, Foreach,
       ForeachIterator, ForeachIteratorInit, If, Let, LetList, LetItem, MultiClass, TemplateArgList, TemplateArgDecl,
       RecordBody, ParentClassList, ArgValueList, ArgValue, Body, BodyItem, FieldDef, FieldLet, Type, Integer, Value,
       InnerValue, SimpleValue (for every unflattening of the dag / !cond value lists).
-    NOT covered: the salsa entry point `index`, IndexCtx::new / finish, and all of
-    index/bang_operator.rs (see design/notes-translator-indexer.md).
+    NOT covered: index/bang_operator.rs (a separate tie; the indexing of a bang operator is a parameter of the SimpleValue
+    clause); see design/notes-translator-indexer.md.
     The index.rs clauses are by open recursion: the indexing of child nodes (and the calls of check_template_args /
     resolve_class_ref_* / index_name_value) are parameters of each rendering, instantiated here with the functions of the
     hand model.  Statement-level clauses compare the resulting STATES (the Option a statement's `index` returns is
